@@ -230,8 +230,8 @@ def _r2(chk: Check, R2: str, scopes: str) -> None:
         if 'push_scope' not in src and scopes not in src and 'pop_scope' not in src:
             continue
         units.append((q, fi, SymExec(F, fi).run()))
-        for p in units[-1][2][:1]:
-            for c in p.closures:
+        for c in om.all_closures(units[-1][2]):
+            if True:
                 if 'push_scope' in ast.dump(c.node):
                     units.append((c.qual, fi, closure_paths(F, fi, c)))
     for q, fi, paths in units:
